@@ -22,7 +22,12 @@ Supported subset (what the generator stays inside; found by reading the grammar 
    the last '+ ROUTED' statement only, class 'wiring-statements'); unique names per section;
  * one LAYER per pin; rows 'DO n BY 1 STEP w 0' or 'DO 1 BY n STEP 0 h' (the extractor keeps max(n, 1) and max(w, 0));
  * FIXED / COVER / NOSHIELD wiring is listed by wires/vias like ROUTED wiring;
- * first point of every wire explicit.
+ * first point of every wire explicit and width tokens plain digits — for the ORACLE. The grammar also accepts `( * 5 )` as first
+   point and NUMBER forms like `1.5` / `1e3` / `7.` as width (audit 2, finding 5): such wires are generated too (tags
+   `dom-hyp:start-wildcard`, `dom-hyp:width-non-int-listed`, `dom-hyp:width-non-int-unlisted`); there the TIE compares the model's partial functions
+   (`netWiresR`, `netViasR`, `Wire.vias?`, `Wire.wirePoints?`) with the REAL outcome of `dnet.wires` / `dnet.vias` / `dw.vias` /
+   `dw.wire_points` (`!value`: ValueError raised by kyupy's own `int(width)`; `!start`: `None` inside the listing or TypeError);
+   a bad width on a wire WITHOUT second point stays inside the oracle's domain (the code must list wires and vias as usual).
 """
 import json, random, re
 from . import common, textmut
@@ -85,11 +90,18 @@ def gen_coord(rng):
     return rng.randint(10**9, 10**13)
 
 
+WILD_START = 0.03
+BAD_WIDTHS = ['1.5', '1e3', '.5', '7.', '12.0E+1', '0.0']     # NUMBER tokens that int() rejects
+ODD_WIDTHS = ['007', '0', '00']                               # ... that int() accepts
+
+
 def gen_entries(rng, special, vianames, n_max=7):
     """entries of one wire: first an explicit point, then >= 1 of point / via / via array.
     written values only; ground truth is recomputed by truth_points (most recent explicit value on the axis)"""
     ents = [{'k': 'p', 'x': gen_coord(rng), 'y': gen_coord(rng)}]
     if rng.random() < 0.1: ents[0]['ext'] = rng.randint(0, 500)
+    if rng.random() < WILD_START:   # accepted by the grammar, not DEF: outside the oracle's domain, inside the tie's
+        ents[0][rng.choice('xy')] = None
     n = rng.choice([1, 1, 2, 2, 3, 3, 4, 5, n_max])
     only_vias = rng.random() < 0.08
     for _ in range(n):
@@ -121,6 +133,10 @@ def gen_wire(rng, special, layers, vianames):
     w = {'layer': rng.choice(layers), 'entries': gen_entries(rng, special, vianames)}
     if special:
         w['width'] = rng.choice([0, 1, 100, 480, 1200, 99999])
+        r = rng.random()
+        if r < 0.05: w['wtok'] = rng.choice(BAD_WIDTHS)      # raw token as written; `width` keeps the nominal value
+        elif r < 0.08:
+            w['wtok'] = rng.choice(ODD_WIDTHS); w['width'] = int(w['wtok'])
         w['opts'] = rng.choice([[], [], [['SHAPE', rng.choice(['STRIPE', 'RING', 'FOLLOWPIN', 'IOWIRE'])]],
                                 [['SHAPE', 'STRIPE'], ['STYLE', str(rng.randint(0, 3))]], [['STYLE', '1']]])
     else:
@@ -170,6 +186,26 @@ def truth_via_events(w):
             evs.append((e['name'], sorted([loc[0] + a * e['dx'], loc[1] + b * e['dy'], 'N']
                                           for a in range(e['nx']) for b in range(e['ny']))))
     return evs
+
+
+def wtok(w):
+    """the width token as written (None for a regular-net wire)"""
+    return None if w['width'] is None else str(w.get('wtok', w['width']))
+
+
+def wire_domain(w):
+    """'ok' | 'start' (first point carries '*') | 'width' (LISTED wire whose width token int() rejects) — the last two are
+    outside the domain of the oracle (DEF requires an explicit first point and integer widths)"""
+    e0 = w['entries'][0]
+    if e0['x'] is None or e0['y'] is None: return 'start'
+    t = wtok(w)
+    if t is not None and not (t.isascii() and t.isdigit()) and truth_wire_points(w): return 'width'
+    return 'ok'
+
+
+def net_domain(routed):
+    ds = {wire_domain(w) for w in routed or []}
+    return 'start' if 'start' in ds else 'width' if 'width' in ds else 'ok'
 
 
 def truth_net(routed):
@@ -247,7 +283,11 @@ def canon_wires(d):
 
 
 def canon_vias(d):
-    return {k: [[int(x), int(y), o] for x, y, o in v] for k, v in d.items()}
+    return {k: [[None if x is None else int(x), None if y is None else int(y), o] for x, y, o in v] for k, v in d.items()}
+
+
+def has_none_wires(d): return any(c is None for v in d.values() for w, pts in v for p in pts for c in p[:2])
+def has_none_vias(d): return any(x is None or y is None for v in d.values() for x, y, o in v)
 
 
 # ----------------------------------------------------------------------------------------------------------------
@@ -265,7 +305,8 @@ def enc_points(width, layer, points):
             else: its.append('v,%s,%s' % (pct(name), pct(param)))
         else:
             its.append('p,' + ','.join(enc_coord(v) for v in p))
-    return '%s:%s:%s' % (pct(layer), '-' if width is None else str(int(width)), ';'.join(its))
+    # the RAW width attribute (DefWire.width is the unconverted token): the model, not the harness, decides where int() runs
+    return '%s:%s:%s' % (pct(layer), '-' if width is None else 't' + pct(str(width)), ';'.join(its))
 
 
 def enc_wire(dw): return enc_points(dw.width, dw.layer, dw.points)
@@ -285,7 +326,21 @@ def show_dict(d, f):
 
 def show_wires(d): return show_dict(d, lambda e: '%s@%s' % ('-' if e[0] is None else e[0], ';'.join(show_pt(p) for p in e[1])))
 def show_vias(d): return show_dict(d, lambda e: '%d,%d,%s' % (e[0], e[1], pct(e[2])))
-def show_exc(kind): return {'AttributeError': '!attr', 'TypeError': '!type'}.get(kind, '!' + kind)
+def show_exc(kind): return {'AttributeError': '!attr', 'TypeError': '!type', 'ValueError': '!value'}.get(kind, '!' + kind)
+
+
+def outcome_wires(kw, rw):
+    """REAL outcome of `dnet.wires` in the driver's answer format: listing | !value (kyupy's int(width) raised) | !start (None
+    inside the listing: a listed wire starts with '*') | !attr | !type"""
+    if kw != 'ok': return show_exc(kw)
+    return '!start' if has_none_wires(rw) else show_wires(rw)
+
+
+def outcome_vias(kv, rv):
+    """REAL outcome of `dnet.vias` / `dw.vias`: listing | !start (None inside a tuple, or TypeError from `None + x*x_sp`) | !attr"""
+    if kv == 'TypeError': return '!start'
+    if kv != 'ok': return show_exc(kv)
+    return '!start' if has_none_vias(rv) else show_vias(rv)
 
 
 # ----------------------------------------------------------------------------------------------------------------
@@ -314,12 +369,15 @@ def check_net(dnet, routed_ast, where, findings, reqs, routed_old=False):
 
 def _check_net(dnet, routed_ast, where, findings, reqs):
     ws = wstr(where)
-    exp_w, exp_v = truth_net(routed_ast)
+    dom = net_domain(routed_ast)
+    exp_w, exp_v = truth_net(routed_ast) if dom == 'ok' else ({}, {})
     regular = bool(routed_ast) and any(w['width'] is None for w in routed_ast)
     kw, rw = call(lambda: canon_wires(dnet.wires))
     kv, rv = call(lambda: canon_vias(dnet.vias))
-    # ---- oracle
-    if kw != 'ok':
+    # ---- oracle (inside its domain: first points explicit, listed widths integer)
+    if dom != 'ok':
+        pass
+    elif kw != 'ok':
         cls = ('unrouted-net-wires' if routed_ast is None and kw == 'AttributeError' else
                'regular-net-wires' if regular and kw == 'TypeError' else 'wires-raise')
         findings.append((cls, f'{ws}: DefNet.wires raises {kw}', {'raised': f'{kw}: {rw}'}, {'wires': exp_w}, where))
@@ -336,11 +394,13 @@ def _check_net(dnet, routed_ast, where, findings, reqs):
         cls = 'wildcard-in-wires' if unres(rw, exp_w) else 'wires'
         findings.append((cls, f"{ws}: DefNet.wires differs from the routing written in the file"
                          + (" ('*' left unresolved)" if cls == 'wildcard-in-wires' else ''), {'wires': rw}, {'wires': exp_w}, where))
-    if kv != 'ok':
+    if dom == 'start':
+        pass
+    elif kv != 'ok':
         cls = 'unrouted-net-wires' if routed_ast is None and kv == 'AttributeError' else 'vias-raise'
         findings.append((cls, f'{ws}: DefNet.vias raises {kv}', {'raised': f'{kv}: {rv}'}, {'vias': exp_v}, where))
     else:
-        diff = vias_match(rv, exp_v)
+        diff = vias_match(rv, exp_v if dom == 'ok' else truth_net(routed_ast)[1])   # vias never read the width
         if diff:
             findings.append(('vias', f'{ws}: DefNet.vias differs from the routing written in the file: {diff}', {'vias': rv}, {'vias': exp_v}, where))
     # ---- correspondence requests (model input = the parsed objects, the model starts after parsing)
@@ -349,9 +409,12 @@ def _check_net(dnet, routed_ast, where, findings, reqs):
         e = enc_net(routed)
     except Exception as ex:
         reqs.append(('encode', where, None, f'{type(ex).__name__}: {ex}'[:200], None)); return
-    real_w = show_wires(rw) if kw == 'ok' else show_exc(kw)
-    real_v = show_vias(rv) if kv == 'ok' else show_exc(kv)
-    reqs.append(('net-wires', where, [f'def wires {e}', f'def wiresasis {e}', f'def wiresraw {e}'], real_w, show_wires(exp_w)))
+    real_w = outcome_wires(kw, rw)
+    real_v = outcome_vias(kv, rv)
+    if where and where[0] != 'probe':
+        OUTCOMES['tie-hyp:net-wires:' + (real_w if real_w.startswith('!') else 'listing')] += 1
+        OUTCOMES['tie-hyp:net-vias:' + (real_v if real_v.startswith('!') else 'listing')] += 1
+    reqs.append(('net-wires', where, [f'def wires {e}', f'def wiresasis {e}', f'def wiresraw {e}'], real_w, show_wires(exp_w) if dom == 'ok' else None))
     reqs.append(('net-vias', where, [f'def vias {e}', f'def viasasis {e}'], real_v, None))
 
 
@@ -360,11 +423,15 @@ def check_wire_corr(dw, where, reqs):
         e = enc_wire(dw)
     except Exception as ex:
         reqs.append(('encode', where, None, f'{type(ex).__name__}: {ex}'[:200], None)); return
-    k1, r1 = call(lambda: ';'.join(show_pt(p) for p in dw.wire_points) or '.')
-    k2, r2 = call(lambda: show_vias(canon_vias(dw.vias)))
+    k1, r1 = call(lambda: dw.wire_points)
+    if k1 == 'ok': r1 = '!start' if any(c is None for p in r1 for c in p[:2]) else (';'.join(show_pt(p) for p in r1) or '.')
+    k2, r2 = call(lambda: canon_vias(dw.vias))
     reqs.append(('wire-points', where, [f'def resolve {e}', f'def wpoints {e}'], r1 if k1 == 'ok' else show_exc(k1), None))
-    reqs.append(('wire-vias', where, [f'def wvias {e}'], r2 if k2 == 'ok' else show_exc(k2), None))
+    reqs.append(('wire-vias', where, [f'def wvias {e}'], outcome_vias(k2, r2), None))
 
+
+import collections
+OUTCOMES = collections.Counter()    # REAL outcomes of dnet.wires / dnet.vias met by the net-level tie (merged into the histogram by run)
 
 VARIANTS = {'net-wires': ['wires', 'wiresasis', 'wiresraw'], 'net-vias': ['vias', 'viasasis'],
             'wire-points': ['resolve', 'wpoints'], 'wire-vias': ['wvias']}
@@ -580,7 +647,7 @@ def render(ast):
                     if i: T('NEW')
                     T(w['layer'])
                     if special:
-                        T(w['width'])
+                        T(wtok(w))
                         for o in w['opts']: T('+', *o)
                     elif w['opts']:
                         T(*w['opts'].split())
@@ -697,7 +764,7 @@ def expected_file(ast):
                     if x['t'] == 'opt': d[x['k'].lower()] = x['v']
                     else:   # the wires of all wiring statements, in file order, under `routed` (D35)
                         d.setdefault('routed', []).extend(
-                            dict({'layer': w['layer'], 'width': None if w['width'] is None else str(w['width']),
+                            dict({'layer': w['layer'], 'width': wtok(w),
                                   'points': expected_entries(w, sp)}, **({'kind': x['k'].lower()} if wire_has_kind() else {}))
                             for w in x['wires'])
                 e[t][n['name']] = d
@@ -854,12 +921,12 @@ def real_routed(text):
     out = {}
     for tag, table in (('S:', d.specialnets), ('N:', d.nets)):
         for name, dnet in table.items():
-            try:
-                v = enc_net(getattr(dnet, 'routed', None))
-                if getattr(dnet, 'routed', None): dnet.wires    # int(width) of every listed wire
-            except ValueError:
-                v = '?value'      # a width token that int() rejects: DefNet.wires raises
-            out[tag + pct(name)] = '.' if v == '~' else v
+            v = enc_net(getattr(dnet, 'routed', None))      # raw records (width token as stored)
+            if not hasattr(dnet, 'routed'): ow = ov = '.'   # tree before D35: no attribute = nothing listed (demanded reading)
+            else:
+                ow = outcome_wires(*call(lambda: canon_wires(dnet.wires)))   # the REAL outcomes: kyupy's own int() raises or not
+                ov = outcome_vias(*call(lambda: canon_vias(dnet.vias)))
+            out[tag + pct(name)] = ('.' if v == '~' else v) + '>' + ow + '>' + ov
     return out
 
 
@@ -879,13 +946,17 @@ def text_level(ck, texts, origin):
                           f'real {exp[:60]} .. {exp[max(0, i - 80):i + 80]} != model {got[:60]} .. {got[max(0, i - 80):i + 80]}', inp={'def_text': t})
             continue
         if origin == 'generated' and f[0] == 'ok' and len(f) == 3:
-            norm = lambda v: '.' if v == '~' else v     # "no ROUTED statement": absent attribute (~) or empty list (.)
-            model = {} if f[2] == '-' else {k: norm(v) for k, v in (x.split('=', 1) for x in f[2].split('!'))}
+            norm = lambda v: ('.' + v[1:]) if v.startswith('~>') else v     # "no ROUTED statement": absent attribute (~) or empty list (.)
+            model = {} if f[2] == '-' else {k: norm(v) for k, v in (x.split('=', 1) for x in re.split(r'!(?=[SN]:)', f[2]))}   # outcomes `!value` / `!start` contain the separator
             try:
                 real = real_routed(t)
             except Exception as ex:
                 ck.broken_tie('DEF text model hand-over', f'{type(ex).__name__}: {ex}'[:300], inp={'def_text': t}); continue
             ck.hist['text-nets-compared'] += len(real)
+            for v in real.values():
+                _, ow, ov = v.rsplit('>', 2)
+                ck.hist['tie-hyp:text-net-wires:' + (ow if ow.startswith('!') else 'listing')] += 1
+                ck.hist['tie-hyp:text-net-vias:' + (ov if ov.startswith('!') else 'listing')] += 1
             if model != real:
                 k = next((k for k in list(real) + list(model) if real.get(k) != model.get(k)), None)
                 ck.broken_tie('DEF text model hand-over (ROUTED wires of a net as DefWire records)',
@@ -898,12 +969,21 @@ HANDOVER_TEXTS = [   # hand-over of the wiring statements (audit finding 4): rep
     'DESIGN t ; NETS 2 ; - n + NOSHIELD m1 ( 0 0 ) ( 5 * ) + ROUTED m1 ( 0 0 ) v N + ROUTED m2 TAPER ( 1 1 ) ( * 2 ) ; - k ; END NETS END DESIGN',
     'DESIGN t ; SPECIALNETS 1 ; - VDD + ROUTED m1 15 ( 0 0 ) ( 50 * ) ; END SPECIALNETS END DESIGN']
 HANDOVER_WIDTH = 'DESIGN t ; SPECIALNETS 1 ; - VDD + ROUTED m1 1.5 ( 0 0 ) ( 50 * ) ; END SPECIALNETS END DESIGN'
+HANDOVER_AUDIT2 = [   # audit 2, finding 5: bad width on a wire without second point (wires AND vias return data); '*' in a first point
+    'DESIGN t ; SPECIALNETS 1 ; - VDD + ROUTED m1 1.5 ( 0 0 ) v1 NEW m2 7 ( 1 1 ) ( 2 * ) v2 DO 2 BY 1 STEP 3 0 ; END SPECIALNETS END DESIGN',
+    'DESIGN t ; SPECIALNETS 1 ; - VDD + ROUTED m1 1.5 ( 0 0 ) ( 5 5 ) v1 NEW m2 1e3 ( 1 1 ) v2 ; END SPECIALNETS END DESIGN',
+    'DESIGN t ; SPECIALNETS 1 ; - VDD + ROUTED m1 100 ( * 5 ) v1 ; END SPECIALNETS END DESIGN',
+    'DESIGN t ; SPECIALNETS 1 ; - VDD + ROUTED m1 100 ( * 5 ) v1 DO 2 BY 1 STEP 10 0 ; END SPECIALNETS END DESIGN',
+    'DESIGN t ; SPECIALNETS 1 ; - VDD + ROUTED m1 100 ( * 5 ) v1 DO 0 BY 3 STEP 10 0 ; END SPECIALNETS END DESIGN',
+    'DESIGN t ; SPECIALNETS 1 ; - VDD + ROUTED m1 100 ( * 5 ) ( 7 * ) v1 DO 2 BY 1 STEP 10 0 ; END SPECIALNETS END DESIGN',
+    'DESIGN t ; SPECIALNETS 1 ; - VDD + ROUTED m1 1.5 ( * 5 ) ( 7 * ) NEW m2 5 ( 5 * ) ( 7 8 ) ; END SPECIALNETS END DESIGN',
+    'DESIGN t ; NETS 1 ; - n + ROUTED m1 ( 3 * ) v N ( 4 4 ) v FS + NOSHIELD m2 ( 1 1 ) ( * 2 ) ; END NETS END DESIGN']
 
 
 def text_stream(ck, scale):
     rng = ck.rng
     try:
-        text_level(ck, HANDOVER_TEXTS + [HANDOVER_WIDTH], 'generated')
+        text_level(ck, HANDOVER_TEXTS + [HANDOVER_WIDTH] + HANDOVER_AUDIT2, 'generated')
         text_level(ck, HAND_TEXTS, 'hand-written')
         text_level(ck, [mutate_text(rng, t) for t in HAND_TEXTS for _ in range(2 * scale)], 'mutated')
         for it in range(40 * scale):
@@ -971,7 +1051,7 @@ def build_direct(case):
         for w in case['routed']:
             dw = def_file.DefWire()
             dw.layer = w['layer']
-            dw.width = None if w['width'] is None else str(w['width'])
+            dw.width = wtok(w)
             pts = []
             for e in w['entries']:
                 if e['k'] == 'p': pts.append(tuple([e['x'], e['y']] + ([e['ext']] if e.get('ext') is not None else [])))
@@ -1094,6 +1174,7 @@ def tags_of_file(ast):
                     tags += ['has:' + k for k in kinds]
                     if any(e.get('ext') is not None for w in x['wires'] for e in w['entries']): tags.append('has:ext')
                     if any(len([e for e in w['entries'] if e['k'] == 'p']) < 2 for w in x['wires']): tags.append('has:via-only-wire')
+                    tags += domain_tags(x['wires'])
                     if segs >= 2 and 'wild' in kinds and kinds & {'via-plain', 'via-orient', 'via-array'}: nontrivial = True
                 wk = [x['k'] for x in n['tail'] if x['t'] == 'wiring']
                 if not wk: tags.append(f"{s['t']}:unrouted")
@@ -1103,6 +1184,18 @@ def tags_of_file(ast):
     if ast['comments']: tags.append('fmt:comments')
     if ast.get('comment_after_orient'): tags.append('fmt:comment-after-orientation')
     return tags, nontrivial
+
+
+def domain_tags(wires):
+    tags = []
+    for w in wires:
+        d = wire_domain(w)
+        if d == 'start': tags.append('dom-hyp:start-wildcard')
+        t = wtok(w)
+        if t is not None and not t.isdigit():
+            tags.append('dom-hyp:width-non-int-listed' if truth_wire_points(w) else 'dom-hyp:width-non-int-unlisted')
+        elif t is not None and t != str(int(t)): tags.append('dom-hyp:width-leading-zeros')
+    return tags
 
 
 def gen_direct(rng):
@@ -1162,6 +1255,7 @@ def oracle(ck, scale):
         nontrivial = bool(case['routed']) and any(len(w['entries']) >= 3 for w in case['routed'])
         tags = ['kind:direct', 'direct:' + ('special' if case['special'] else 'regular')]
         if case['routed'] is None: tags.append('direct:unrouted')
+        else: tags += domain_tags(case['routed'])
         handle(ck, case, json.dumps(case, sort_keys=True), nontrivial, tags, None)
 
 
@@ -1171,16 +1265,22 @@ def theorems():
 
 def run(ck):
     ck.prove([], TARGETS, theorems())
+    OUTCOMES.clear()
     oracle(ck, ck.scale)
     text_stream(ck, ck.scale)
     if ck.broken and not ck.violations:
         oracle(ck, ck.scale * 8)
+    ck.hist.update(OUTCOMES)
     ck.assumptions += ['grammar/lexer of def_file.py: modelled (Model/DefText.lean, round-trip theorem) and compared with lark on generated, hand-written and mutated texts (parse tree with all tokens); that lark implements the grammar as the model reads it is checked there, not proved; the transformer callbacks are exercised by the attribute oracle',
                        'ground truth of wires/vias: backwards search for the most recent explicit coordinate; array positions as a set per DO statement',
                        'wires/vias list the wiring of ALL wiring statements of a net in file order (ROUTED, FIXED, COVER, NOSHIELD; D35); the tree '
                        'before D35 is reported with class wiring-statements',
                        f'model reading compared per request kind (probed once on three hand-made nets): { {k: v for k, v in probe_variants().items() if k != "__key__"} }',
-                       'demanded listing for a regular-net wire: width None; for a net without + ROUTED: empty listings']
+                       'demanded listing for a regular-net wire: width None; for a net without + ROUTED: empty listings',
+                       'domain of the oracle: first point of every wire explicit, width token of every LISTED wire plain digits (DEF); outside it '
+                       '(tags dom-hyp:start-wildcard, dom-hyp:width-non-int-listed) only the tie runs: model outcome (!value = ValueError of '
+                       "kyupy's own int(width); !start = None in the listing / TypeError) vs the REAL outcome of dnet.wires / dnet.vias (tags tie-hyp:*); "
+                       'a non-integer width on a wire without second point is INSIDE the domain (wires and vias list as usual)']
     return ck.finish(RULE)
 
 
